@@ -25,14 +25,45 @@ else
 fi
 export VERIF_MODFLAG="$MODFLAG"
 BIN="$V/bin/mc.$$"
-cleanup() { rm -f "$BIN"; [ -n "$SCR" ] && rm -rf "$SCR"; }
+OVL=$(mktemp -d /tmp/verif-ovl.XXXXXX)
+cleanup() { rm -f "$BIN" "$V/bin/build.$$.log"; rm -rf "$OVL"; [ -n "$SCR" ] && rm -rf "$SCR"; }
 trap cleanup EXIT
-if ! go build $MODFLAG -o "$BIN" ./cmd/mc 2> "$V/bin/build.$$.log"; then
+# Overlays (nothing is written into $REPO): (1) an export file added to package
+# seqio for the ORIGIN fast/slow comparison (tag verifseqio); (2) the current
+# cmd/cache/file.go with its "os" import redirected to the in-memory,
+# fault-injecting shim verif/faultos (tag verifcache).
+TAGS=""
+OVJSON="$OVL/overlay.json"
+python3 - "$REPO" "$OVL" "$V" > "$OVJSON" <<'PY'
+import json, re, sys, os
+repo, ovl, v = sys.argv[1:4]
+rep = {}
+exp = os.path.join(v, "mc/overlay/seqio_export.go.txt")
+if os.path.exists(exp):
+    rep[os.path.join(repo, "seqio/zz_verif_export.go")] = exp
+src = os.path.join(repo, "cmd/cache/file.go")
+if os.path.exists(src) and os.path.isdir(os.path.join(v, "mc/faultos")):
+    s = open(src).read()
+    s2 = re.sub(r'(?m)^(\s*)"os"\s*$', r'\1os "verif/faultos"', s, count=1)
+    if s2 != s:
+        dst = os.path.join(ovl, "cache_file.go")
+        open(dst, "w").write(s2)
+        rep[src] = dst
+print(json.dumps({"Replace": rep}))
+PY
+build() { go build $MODFLAG -overlay "$OVJSON" -tags "$1" -o "$BIN" ./cmd/mc 2> "$V/bin/build.$$.log"; }
+WANT="verifseqio"
+[ -d "$V/mc/faultos" ] && WANT="verifseqio verifcache"
+if build "$WANT"; then TAGS="$WANT"
+elif build "verifcache"; then TAGS="verifcache"
+elif build "verifseqio"; then TAGS="verifseqio"
+elif go build $MODFLAG -o "$BIN" ./cmd/mc 2> "$V/bin/build.$$.log"; then TAGS=""
+else
   echo "HARNESS-ERROR: build of the checker against $REPO failed:" >&2
-  cat "$V/bin/build.$$.log" >&2; rm -f "$V/bin/build.$$.log"
+  cat "$V/bin/build.$$.log" >&2
   exit 3
 fi
-rm -f "$V/bin/build.$$.log"
+export VERIF_TAGS="$TAGS"
 cmd=${1:-}
 case "$cmd" in
   check)
